@@ -30,6 +30,7 @@ func C09(r *core.Run) {
 	fragmentCoverage(r)
 	astFieldCoverage(r)
 	emptyArrayForm(r)
+	renderedTextOpaque(r)
 }
 
 // C11 — BCL parser is total and every diagnostic points inside the file.
@@ -48,6 +49,7 @@ func C19(r *core.Run) {
 	positionsCoverConsumed(r)
 	fmtDiffForms(r)
 	editsDisjoint(r)
+	renderedTextOpaque(r)
 }
 
 // charConsts returns the rune constants (and identifiers) listed in the case
